@@ -177,9 +177,22 @@ def _judge(ctx, mon, fn, target, lower, upper, precision, max_iter, out, err, n_
         # violation of monotonicity among the samples as the noise level
         samples = torch.stack([fn(torch.minimum(torch.maximum(xb - step + j * step / 4, lob), upb)) * sgn for j in range(9)])
         noise = (samples.cummax(0).values - samples).amax(0)
+        # staircase functions (e.g. float32 ncdf = 0.5 (1 + erf) in the far tail: quantum ~3e-8 on values of 3e-6): few distinct levels among
+        # the 9 samples; the quantum is then the resolution of fn there
+        srt = samples.sort(0).values
+        levels = 1 + (srt[1:] != srt[:-1]).sum(0)
+        quantum = (srt[-1] - srt[0]) / (levels - 1).clamp(min=1)
+        noise = torch.maximum(noise, torch.where(levels <= 6, quantum, torch.zeros_like(quantum)))
+        # rounding jumps riding on a smooth trend: the largest increment between neighbouring samples minus the typical (median) increment
+        inc = (samples[1:] - samples[:-1]).abs()
+        noise = torch.maximum(noise, inc.amax(0) - inc.median(0).values)
+        flat = levels == 1
         ftol = 8 * e * (fx.abs() + tg.abs()) + 16 * noise + float(torch.finfo(dtype).tiny)
         # a root r (fn(r) = target) exists within [x - step, x + step]: fn(x - step) <= target <= fn(x + step)
         ok = (f_xlo <= tg + ftol) & (f_xhi >= tg - ftol)
+        if bool(flat.any()):
+            ctx.skipped(mon, "fn_flat_at_float_resolution_around_result", int(flat.sum()))
+            ok = ok | flat
         if not bool(ok.all()) and f32_regime:
             step32 = step + 8 * float(torch.finfo(F32).eps) * max(scale, 1e-30)
             ok32 = (fn(torch.maximum(xb - step32, lob - step32)) * sgn <= tg + ftol) & (fn(torch.minimum(xb + step32, upb + step32)) * sgn >= tg - ftol)
